@@ -11,7 +11,7 @@ import io
 import itertools
 import sys
 
-from rv import core
+from rv import core, sched
 from rv.vclock import VClock, patched
 
 PID = "C08"
@@ -26,8 +26,10 @@ ASSUMPTIONS = ["default AND gate; failure := executor FAILURE verdict (assessor 
                "failures counted 'in total' since the last clear (successful probe / manual reset); an implementation that also clears on ordinary successes is accepted"]
 
 ALPHA = ["S", "B", "F", "X", "C", "d<", "d=", "d>", "R"]
-CONFIGS = [(th, rec, cache, True) for th in (1, 2, 3, 4) for rec in (1.0, 60.0) for cache in (False, True)] + \
-          [(2, 60.0, False, False), (1, 1.0, True, False)]
+CONFIGS = [(th, rec, cache, True, "AND") for th in (1, 2, 3, 4) for rec in (1.0, 60.0) for cache in (False, True)] + \
+          [(2, 60.0, False, False, "AND"), (1, 1.0, True, False, "AND")] + \
+          [(th, 60.0, cache, True, lg) for lg in ("OR", "EXECUTOR_PRIORITY", "ASSESSOR_PRIORITY", "UNANIMOUS") for (th, cache) in ((1, False), (3, True))]
+RAND_ALPHA = ALPHA + ["Fs", "Xs"]       # failures during which the clock moves (slow agent), random sequences only
 
 
 def sweep_size(depth):
@@ -57,7 +59,8 @@ def plan(tier):
             "timeout": 600 if tier == "quick" else 2400,
             "require": {"steps": 50000, "open_refusals_checked": 3000, "probes_admitted": 1000, "probe_success_closed": 200,
                         "probe_failure_reopened": 200, "trips": 1000, "executor_failures": 3000, "agent_exceptions": 3000,
-                        "real_agent_steps": 500}}
+                        "real_agent_steps": 500, "slow_failures": 1000, "other_gate_blocks": 500,
+                        "thread_schedules": 2000, "concurrent_failures_judged": 2000}}
 
 
 class Boom(Exception):
@@ -71,11 +74,15 @@ class Stub:
         self.verdict = "PERMIT"
         self.calls = 0
         self.log = []
+        self.slow = 0.0
+        self.clock = None
 
     def express(self, signal):
         from operon_ai.core.types import ActionProtein
         self.calls += 1
         self.budget.consume(cost=10)
+        if self.slow and self.clock is not None:
+            self.clock.advance(self.slow)      # the agent call itself takes (virtual) time
         if self.verdict == "raise":
             raise Boom("agent crashed")
         return ActionProtein(self.verdict, "p", 0.9)
@@ -124,19 +131,21 @@ def run_case(ctx, n):
     rng = ctx.rng(n)
     cfg = rng.choice(CONFIGS)
     L = rng.randint(5, 8)
-    w = [3, 2, 4, 4, 1, 2, 1, 2, 1]
-    seq = rng.choices(ALPHA, weights=w, k=L)
-    real = (n % 10 == 0)
+    w = [3, 2, 4, 4, 1, 2, 1, 2, 1, 2, 2]
+    seq = rng.choices(RAND_ALPHA, weights=w, k=L)
+    real = (n % 10 == 0) and cfg[4] == "AND"
+    if n % (400 if ctx.tier == "quick" else 2500) == 3:
+        return thread_case(ctx, n, rng)
     drive(ctx, n, cfg, seq, real=real)
 
 
 def drive(ctx, n, cfg, seq, real):
     import operon_ai.topology.loops as loops_mod
-    from operon_ai.topology.loops import CoherentFeedForwardLoop
+    from operon_ai.topology.loops import CoherentFeedForwardLoop, GateLogic
     from operon_ai.state.metabolism import ATP_Store
-    threshold, recovery, cache, enabled = cfg
+    threshold, recovery, cache, enabled, logic = cfg
     clock = VClock(base=1_700_000_000.0)
-    witness = {"config": {"threshold": threshold, "recovery_s": recovery, "cache": cache, "breaker": enabled, "real_agents": real},
+    witness = {"config": {"threshold": threshold, "recovery_s": recovery, "cache": cache, "breaker": enabled, "real_agents": real, "gate": logic},
                "sequence": seq, "trace": []}
 
     def viol(mech, what):
@@ -144,12 +153,13 @@ def drive(ctx, n, cfg, seq, real):
 
     with patched(clock, loops_mod):
         budget = ATP_Store(10 ** 7, silent=True)
-        loop = CoherentFeedForwardLoop(budget, enable_circuit_breaker=enabled, failure_threshold=threshold,
+        loop = CoherentFeedForwardLoop(budget, gate_logic=GateLogic[logic], enable_circuit_breaker=enabled, failure_threshold=threshold,
                                        recovery_timeout_seconds=recovery, enable_cache=cache, cache_ttl_seconds=10 ** 6, silent=True)
         if real:
             ex, asr = Proxy(loop.executor), Proxy(loop.assessor)
         else:
             ex, asr = Stub("Gene_Z (Exec)", budget), Stub("Gene_Y (Risk)", budget)
+            ex.clock = clock
         loop.executor, loop.assessor = ex, asr
         m = Model(threshold, recovery, enabled)
         fresh = itertools.count()
@@ -185,14 +195,21 @@ def drive(ctx, n, cfg, seq, real):
                 prompt, _cls = cached_prompts[-1]
                 want = "C"
             else:
+                slow = sym in ("Fs", "Xs")
+                sym = sym[0]
+                if sym == "F" and logic in ("OR", "EXECUTOR_PRIORITY"):
+                    sym = "X"     # an executor FAILURE verdict is not a blocked/failed request under these gates
                 want = sym
                 i = next(fresh)
                 if real:
                     prompt = {"S": "summarise report %d", "B": "destroy table %d", "F": "deploy build %d", "X": "summarise report %d"}[sym] % i
                 else:
                     prompt = "request %d" % i
-                    ex.verdict, asr.verdict = {"S": ("EXECUTE", "PERMIT"), "B": ("EXECUTE", "BLOCK"),
+                    ex.verdict, asr.verdict = {"S": ("EXECUTE", "PERMIT"), "B": ("EXECUTE", "BLOCK") if logic == "AND" else ("BLOCK", "BLOCK"),
                                                "F": ("FAILURE", "PERMIT"), "X": ("raise", "PERMIT")}[sym]
+                    ex.slow = (recovery * 0.75 if slow else 0.0)
+                    if slow:
+                        ctx.count("slow_failures")
             if real and sym == "X":
                 continue   # genuine agents do not raise on demand
             calls0 = ex.calls + asr.calls
@@ -295,6 +312,8 @@ def drive(ctx, n, cfg, seq, real):
                         m.total = 0   # implementation variant that clears on every success
             elif outcome == "B":
                 ctx.count("intentional_blocks")
+                if logic != "AND":
+                    ctx.count("other_gate_blocks")
                 if st.failure_count != st0.failure_count:
                     viol("block-counted-as-failure", "intentional block moved the failure count %d -> %d" % (st0.failure_count, st.failure_count))
                     return
@@ -343,6 +362,80 @@ def drive(ctx, n, cfg, seq, real):
             ctx.nontrivial((cfg, tuple(m.trace)))
     if n % 5000 == 0:
         ctx.sample(witness)
+
+
+class PStub:
+    """verdict encoded in the prompt: 'E=..;A=..;#id'"""
+
+    def __init__(self, name, role):
+        self.name, self.role = name, role
+        self.calls = 0
+
+    def express(self, signal):
+        from operon_ai.core.types import ActionProtein
+        self.calls += 1
+        v = dict(f.split("=", 1) for f in signal.content.split(";") if "=" in f)[self.role]
+        if v == "raise":
+            raise Boom("agent crashed")
+        return ActionProtein(v, "p", 0.9)
+
+
+def thread_case(ctx, n, rng):
+    """Concurrent failing requests on one loop under the line-level scheduler. Only statement-derived obligations are judged:
+    K admitted failures with no success in between => open if K >= threshold; never open with K < threshold; failure_count <= K."""
+    from operon_ai.topology.loops import CoherentFeedForwardLoop
+    from operon_ai.state.metabolism import ATP_Store
+    sched.instrument(CoherentFeedForwardLoop, PStub)
+    # breaker bookkeeping fields are yield points too (read and write), so a read-modify-write of a counter can be split
+    Loop = sched.yielding_fields(CoherentFeedForwardLoop, ["_failure_count", "_circuit_state", "_last_failure", "_trips_count"])
+    threshold = rng.choice([1, 2, 2, 3, 4])
+    nthreads = rng.choice([2, 2, 3])
+    reqs = [["E=%s;A=PERMIT;#%d.%d" % (rng.choice(["FAILURE", "raise"]), t, k) for k in range(rng.randint(1, 2))] for t in range(nthreads)]
+    desc = {"threshold": threshold, "threads": reqs}
+
+    def one(policy, label):
+        loop = Loop(ATP_Store(10 ** 6, silent=True), failure_threshold=threshold, recovery_timeout_seconds=10 ** 6,
+                    enable_cache=False, silent=True)
+        loop.executor, loop.assessor = PStub("Gene_Z (Exec)", "E"), PStub("Gene_Y (Risk)", "A")
+        loop._lock = sched.SchedLock(loop._lock, "loop._lock")
+        sc = sched.Scheduler(policy, watchdog_s=30.0)
+        sc.run([(lambda ps=ps: [loop.run(p) for p in ps]) for ps in reqs])
+        ctx.count("thread_schedules")
+        w = dict(desc, policy=label, choices=sc.choices[:300])
+        if sc.stuck:
+            ctx.inconclusive("a schedule hit the wall-clock watchdog (not a verdict)")
+            return sc
+        if sc.deadlock:
+            ctx.violation("deadlock", "guard loop deadlocked: %s" % sc.deadlock, w)
+            return sc
+        if any(e is not None for e in sc.errors):
+            ctx.violation("run-raises-under-threads", "run() raised %r" % ([e for e in sc.errors if e is not None][0],), w)
+            return sc
+        replies = [r for rs in sc.results for r in rs]
+        K = sum(1 for r in replies if r.action != "CIRCUIT_OPEN")
+        st = loop.get_circuit_breaker_stats()
+        ctx.count("concurrent_failures_judged", K)
+        w["admitted_failures"], w["final"] = K, {"state": st.state.value, "failure_count": st.failure_count}
+        if K >= threshold and st.state.value != "open":
+            ctx.violation("not-open-after-threshold:concurrent", "%d failing requests completed (threshold %d) and the breaker is %s with failure_count %d" % (
+                K, threshold, st.state.value, st.failure_count), w)
+        elif K < threshold and st.state.value == "open":
+            ctx.violation("opens-before-threshold", "breaker open after %d failure(s), threshold %d" % (K, threshold), w)
+        elif st.failure_count > K:
+            ctx.violation("failures-overcounted", "failure_count %d for %d failed requests" % (st.failure_count, K), w)
+        if sc.switch_while_other_inside:
+            ctx.nontrivial(("threads", sc.trace_hash()))
+        return sc
+
+    base = one(sched.PreemptionPolicy({}), "pb(0)")
+    N = max(base.step, 1)
+    combos = [(s_, t) for s_ in range(1, N + 1) for t in range(nthreads)]
+    if len(combos) > 200:
+        combos = rng.sample(combos, 200)
+    for (s_, t) in combos:
+        one(sched.PreemptionPolicy({s_: t}), "pb(1)@%d->%d" % (s_, t))
+    for i in range(60):
+        one(sched.RandomPolicy(rng, (0.1, 0.3, 0.6)[i % 3]), "random")
 
 
 if __name__ == "__main__":
